@@ -1,5 +1,6 @@
 # -*- coding: utf-8 -*-
 
+import threading
 from typing import (
     Any,
     Callable,
@@ -267,6 +268,7 @@ class Executor(ResolutionContext):
         resolved_fields = OrderedDict()  # type: Dict[str, Any]
 
         args = list(self._iterate_fields(parent_type, fields))
+        lock = threading.Lock()
 
         def _next():
             # Iterate while fields resolve synchronously (a recursive `_next`
@@ -279,22 +281,30 @@ class Executor(ResolutionContext):
                 except IndexError:
                     return resolved_fields
 
+                # `cb` may run on another thread (a pool worker completing the
+                # field's future) while this thread is still between
+                # `map_value` returning and the hand-over below: exactly one of
+                # the two sides must carry on, hence the lock.
                 state = {"inline": True, "ran": False}
 
                 def cb(value, k=k, state=state):
                     resolved_fields[k] = value
-                    if state["inline"]:
-                        # Called synchronously from within `map_value`: let
-                        # the loop below carry on with the next field.
-                        state["ran"] = True
-                        return None
+                    with lock:
+                        if state["inline"]:
+                            # Called before the hand-over (synchronously from
+                            # within `map_value`, or concurrently): let the
+                            # loop below carry on with the next field.
+                            state["ran"] = True
+                            return None
                     return _next()
 
                 chained = self.runtime.map_value(
                     self.resolve_field(parent_type, root, f, n, path + [k]), cb
                 )
-                state["inline"] = False
-                if not state["ran"]:
+                with lock:
+                    state["inline"] = False
+                    ran = state["ran"]
+                if not ran:
                     # Deferred: `cb` resumes the chain once the value is there.
                     return chained
 
